@@ -241,10 +241,10 @@ def charlit_table_task():
     res['paths'] = 1
     res['decisions'] = 1
     bad = []
-    for n in range(32, 127):
-        c = chr(n)
-        if c == '\\':
-            continue
+    cases = [(chr(n), n) for n in range(32, 127) if chr(n) != '\\']
+    # escaped spellings
+    cases += [("\\'", 39), ('\\\\', 92), ('\\n', 10), ('\\t', 9), ('\\x41', 65), ('\\0', 0)]
+    for c, n in cases:
         for src, check in (("K = '%s'\ndb K" % c, lambda out, k: k.get('K') == n and bytes(out) == bytes([n])),
                            ("addi x5, x0, '%s'" % c, lambda out, k: bytes(out) == ((n << 20) | (5 << 7) | 0x13).to_bytes(4, 'little'))):
             k = {}
@@ -260,7 +260,7 @@ def charlit_table_task():
                 bad.append((c, src, got))
     res['samples'].append(dict(characters=94, forms=2))
     for c, src, got in bad[:6]:
-        path = common.write_replay('C11', 'charlit_%d' % ord(c), dict(kind='program', property='C11', source=src, what='character literal %r: %r' % (c, got)))
+        path = common.write_replay('C11', 'charlit_%d' % ord(c[-1]), dict(kind='program', property='C11', source=src, what='character literal %r: %r' % (c, got)))
         res['violations'].append(dict(harness='charlit-table', kind='char-literal', char=c, source=src, got=str(got), replay=path))
     return res
 
